@@ -45,6 +45,8 @@ pub enum EvB {
     All(Op, Vec<usize>),
     /// the scripted sender settles deliveries first..=last (indices): disposition(role=sender, settled=true)
     Settle(usize, usize),
+    /// receiver.disposer().accept / release (delivery i): the handle that disposes without the receiver
+    Disposer(Op, usize),
 }
 
 impl EvB {
@@ -52,13 +54,14 @@ impl EvB {
         match self {
             EvB::One(op, i) => format!("{op:?}({i})"),
             EvB::All(op, v) => format!("{op:?}_all({v:?})"),
+            EvB::Disposer(op, i) => format!("disposer.{op:?}({i})"),
             EvB::Settle(a, b) if a == b => format!("sender-settles({a})"),
             EvB::Settle(a, b) => format!("sender-settles({a}..{b})"),
         }
     }
 }
 
-const N: usize = 3;
+const N: usize = 5;
 /// first delivery-id the scripted sender uses (not 0, so that an index is never a valid id by accident)
 const BASE_ID: u32 = 5;
 
@@ -74,9 +77,11 @@ pub fn core_alphabet_b(rcv: Rcv) -> Vec<EvB> {
         EvB::All(Op::Acc, vec![0, 2]),
         EvB::All(Op::Rej, vec![1, 2]),
         EvB::All(Op::Mod, vec![2, 1, 0]),
+        EvB::All(Op::Acc, vec![0, 2, 4]),
+        EvB::Disposer(Op::Acc, 0),
     ];
     if rcv == Rcv::Second {
-        v.extend([EvB::Settle(0, 0), EvB::Settle(1, 2), EvB::Settle(0, 2)]);
+        v.extend([EvB::Settle(0, 0), EvB::Settle(1, 2), EvB::Settle(0, 2), EvB::Settle(0, 4)]);
     }
     v
 }
@@ -94,10 +99,21 @@ pub fn alphabet_b(rcv: Rcv) -> Vec<EvB> {
     v.push(EvB::All(Op::Rej, vec![1, 2]));
     v.push(EvB::All(Op::Rel, vec![2, 0]));
     v.push(EvB::All(Op::Mod, vec![2, 1, 0]));
+    // ids with two and more gaps, ascending and descending, and with a run in the middle
+    v.push(EvB::All(Op::Acc, vec![0, 2, 4]));
+    v.push(EvB::All(Op::Rej, vec![4, 2, 0]));
+    v.push(EvB::All(Op::Rel, vec![0, 1, 3, 4]));
+    v.push(EvB::All(Op::Mod, vec![1, 3]));
+    v.push(EvB::All(Op::Acc, vec![0, 2, 3]));
+    v.push(EvB::Disposer(Op::Acc, 0));
+    v.push(EvB::Disposer(Op::Acc, 2));
+    v.push(EvB::Disposer(Op::Rel, 1));
     if rcv == Rcv::Second {
         v.push(EvB::Settle(0, 0));
         v.push(EvB::Settle(1, 2));
         v.push(EvB::Settle(0, 2));
+        v.push(EvB::Settle(3, 4));
+        v.push(EvB::Settle(0, 4));
     }
     v
 }
@@ -243,9 +259,9 @@ pub async fn scenario_b(rcv: Rcv, events: Vec<EvB>) -> ObsB {
         // deliveries named now that had already been named once after their settlement
         let mut again_before: BTreeSet<usize> = BTreeSet::new();
         match ev {
-            EvB::One(op, _) | EvB::All(op, _) => {
+            EvB::One(op, _) | EvB::All(op, _) | EvB::Disposer(op, _) => {
                 let idxs: Vec<usize> = match ev {
-                    EvB::One(_, i) => vec![*i],
+                    EvB::One(_, i) | EvB::Disposer(_, i) => vec![*i],
                     EvB::All(_, v) => v.clone(),
                     _ => unreachable!(),
                 };
@@ -277,6 +293,14 @@ pub async fn scenario_b(rcv: Rcv, events: Vec<EvB>) -> ObsB {
                     EvB::All(Op::Rej, v) => drive(&mut c.peer, rx.reject_all(v.iter().map(|k| &deliveries[*k]), reject_error()), SHORT).await,
                     EvB::All(Op::Rel, v) => drive(&mut c.peer, rx.release_all(v.iter().map(|k| &deliveries[*k])), SHORT).await,
                     EvB::All(Op::Mod, v) => drive(&mut c.peer, rx.modify_all(v.iter().map(|k| &deliveries[*k]), modified()), SHORT).await,
+                    EvB::Disposer(Op::Rel, k) => {
+                        let d = rx.disposer();
+                        drive(&mut c.peer, d.release(&deliveries[*k]), SHORT).await
+                    }
+                    EvB::Disposer(_, k) => {
+                        let d = rx.disposer();
+                        drive(&mut c.peer, d.accept(&deliveries[*k]), SHORT).await
+                    }
                     _ => unreachable!(),
                 };
                 match res {
@@ -390,7 +414,7 @@ pub async fn scenario_b(rcv: Rcv, events: Vec<EvB>) -> ObsB {
             }
             let extra: Vec<usize> = covered_now.difference(&allowed).copied().collect();
             let named: Vec<usize> = match ev {
-                EvB::One(_, k) => vec![*k],
+                EvB::One(_, k) | EvB::Disposer(_, k) => vec![*k],
                 EvB::All(_, v) => v.clone(),
                 _ => vec![],
             };
